@@ -203,6 +203,47 @@ func Run(rep *hx.Report, props Props, tier string, sh hx.Shard, deadline time.Ti
 		rep.Sample(st.String())
 	}
 
+	// S2m: the other simulator modes (ICWS88, NOP94): the step semantics do not depend on the mode.
+	{
+		const M = 8
+		var lim [][2]uint64
+		for r := uint64(1); r <= M; r++ {
+			for w := uint64(1); w <= M; w++ {
+				if thorough || r == w || r == M || w == M || (r+w)%5 == 0 {
+					lim = append(lim, [2]uint64{r, w})
+				}
+			}
+		}
+		bg := Background(1, M)
+		for _, mode := range []int{1, 2} {
+			st := &State{M: M, P: 2, Mode: mode, Core: make([]g.Instruction, M)}
+			for f := 0; f < hx.NForms; f++ {
+				if !sh.Mine(f) {
+					continue
+				}
+				if expired() {
+					return
+				}
+				copy(st.Core, bg)
+				st.PC = M - 1
+				for a := uint64(0); a < M; a++ {
+					for b := uint64(0); b < M; b++ {
+						if !thorough && (a+b+uint64(f))%2 == 1 {
+							continue
+						}
+						st.Core[st.PC] = hx.Mk(f, a, b)
+						for _, l := range lim {
+							st.R, st.W = l[0], l[1]
+							ck.Check(st)
+						}
+					}
+				}
+			}
+			rep.Sample(st.String())
+		}
+		rep.Bound += "; S2m: simulator modes ICWS88 and NOP94: M=8, PC at the last cell, all forms x field pairs (quick: half of them) x limit pairs (quick: equal, one of them M, or r+w divisible by 5) on a dense background"
+	}
+
 	// S3: large cores (field arithmetic far above 16 bits: 8000, 55440 and 2^20 cells).
 	if props.C01 || props.C04 || props.C11 {
 		larges := []uint64{8000, 100003}
@@ -277,7 +318,10 @@ func Run(rep *hx.Report, props Props, tier string, sh hx.Shard, deadline time.Ti
 
 	// S3m: every form on mid-sized and power-of-two cores and on the 100003-cell core.
 	if props.C01 || props.C04 || props.C11 {
-		mids := []uint64{256, 4096, 65536, 100003}
+		mids := []uint64{256, 4096, 100003}
+		if thorough {
+			mids = []uint64{256, 4096, 65536, 100003}
+		}
 		for _, M := range mids {
 			vals := []uint64{0, 1, 255, 256 % M, M / 2, M - 1}
 			if M >= 65536 {
@@ -326,6 +370,58 @@ func Run(rep *hx.Report, props Props, tier string, sh hx.Shard, deadline time.Ti
 			rep.Sample(st.String())
 		}
 		rep.Bound += fmt.Sprintf("; S3m: M in %v, PC at the last cell, every form x field pairs from {0,1,255,256,M/2,M-1} (for M >= 65536 quick: {1,65537,M-1}, half of the pairs per form) with large fields in the operand cells, limits (M,M), (M/4,M/4), (M/2+1,M-2) in rotation", mids)
+	}
+
+	// S5: the core-size sweep (sweep.go).
+	if props.C01 || props.C11 {
+		sizes := SweepSizes(thorough)
+		ck.sweep(sizes, thorough, sh, expired)
+		rep.Bound += fmt.Sprintf("; S5: core-size sweep: %d core sizes (every size 4..70001; thorough: also every 7th up to 140001) x limits (M,M) and (M/2+1,(M+1)/2+1) (quick: one of the two above 9000 cells, alternating) x 48 probes (16 forms with fields M-1, M/2, M/2+1 and indirection through neighbours holding the largest fields, 3 neighbour pairs) loaded four cells apart from address 0 downwards and executed in one cycle in lock step with the reference scheduler, whole core and all queues compared; a batch that disagrees is taken apart into single steps", len(sizes))
+	}
+
+	// S4 (C04 only): limits above the core size, which the configuration check
+	// accepts (the nop256 preset has them): every limit up to 4M+2, and the presets' own pairs.
+	if props.C04 {
+		type cfg struct{ M, R, W uint64 }
+		var cfgs []cfg
+		for _, M := range []uint64{5, 8} {
+			for L := M + 1; L <= 4*M+2; L++ {
+				cfgs = append(cfgs, cfg{M, L, L}, cfg{M, L, M}, cfg{M, M, L})
+			}
+		}
+		cfgs = append(cfgs, cfg{256, 800, 800}, cfg{80, 800, 800}, cfg{8192, 8000, 8000}, cfg{100, 257, 301})
+		for _, cf := range cfgs {
+			M := cf.M
+			vals := []uint64{0, 1, M / 2, M - 1}
+			if M > 64 {
+				vals = []uint64{1, M - 1}
+			}
+			bg := Background(1, M)
+			st := &State{M: M, P: 2, R: cf.R, W: cf.W, Core: make([]g.Instruction, M)}
+			for f := 0; f < hx.NForms; f++ {
+				if !sh.Mine(f) {
+					continue
+				}
+				if expired() {
+					return
+				}
+				for _, pc := range []uint64{0, M - 1} {
+					copy(st.Core, bg)
+					st.PC = pc
+					// the cells next to the PC hold the largest fields (pointer sums up to 2M-2)
+					st.Core[(pc+M-1)%M].A, st.Core[(pc+M-1)%M].B = g.Address(M-1), g.Address(M-1)
+					st.Core[(pc+1)%M].A, st.Core[(pc+1)%M].B = g.Address(M-1), g.Address(M-2)
+					for _, a := range vals {
+						for _, b := range vals {
+							st.Core[pc] = hx.Mk(f, a, b)
+							ck.Check(st)
+						}
+					}
+				}
+			}
+			rep.Sample(st.String())
+		}
+		rep.Bound += "; S4 (invariants only): limits above the core size: M in {5,8} x every limit L in M+1..4M+2 as (L,L), (L,M), (M,L), and (M,R,W) in {(256,800,800), (80,800,800), (8192,8000,8000), (100,257,301)}: every form x 16 field pairs (4 for the larger cores) x PC at the first and last cell on a dense core whose neighbour cells hold the largest fields"
 	}
 
 	if !thorough {
